@@ -56,12 +56,13 @@ def probe_classes(text):
 def run(ctx):
     reqs = [("c04", "enum", "1", "0", "100000"), ("c04", "enum", "2", "0", "100000")]
     if not ctx.quick():
-        reqs += [("c04", "enum", "3", str(lo), str(lo + 2000)) for lo in range(0, 12000, 2000)]
-        reqs += [("c04", "enum", "4", str(lo), str(lo + 4000)) for lo in range(0, 160000, 4000)]
+        reqs += [("c04", "enum", "3", str(lo), str(lo + 2000)) for lo in range(0, 18000, 2000)]
+        reqs += [("c04", "enum", "4", str(lo), str(lo + 4000)) for lo in range(0, 264000, 4000)]
     else:
-        reqs += [("c04", "enum", "3", "0", "3000")]
+        # windows spread over the whole enumeration (the first event is the most significant digit)
+        reqs += [("c04", "enum", "3", str(lo), str(lo + 500)) for lo in range(0, 16384, 2731)]
     cases = S.fetch(reqs)
-    ctx.rule("all well-formed histories of <=%d declarations / scope openings / closings (typedef, object, function, tag, member, prototype parameter) of 2 names, nesting depth <= 2, after 4 file-scope prefixes, inside a function definition whose parameter list rotates through 7 forms (none, a hiding parameter, unnamed parameters before / after it, two parameters), with both names probed after every event and after every scope exit (4 probe forms: 'T * x;', '(T)(x);', 'sizeof(T);', 'T (x);'); the expected classification comes from Spec.isType" % (3 if ctx.quick() else 4))
+    ctx.rule("all well-formed histories of <=%d declarations / scope openings / closings (typedef, object, object declared with a struct / union specifier, function, tag, member, prototype parameter) of 2 names, nesting depth <= 2, after 4 file-scope prefixes, inside a function definition whose parameter list rotates through 7 forms (none, a hiding parameter, unnamed parameters before / after it, two parameters), with both names probed after every event and after every scope exit (4 probe forms: 'T * x;', '(T)(x);', 'sizeof(T);', 'T (x);'); the expected classification comes from Spec.isType" % (3 if ctx.quick() else 4))
     texts = [c[0] for c in cases]
     got = pmap(probe_classes, texts)
     keys = set()
